@@ -95,6 +95,8 @@ def run(ctx):
         run.bad("C14.O", key, "%s obligation not discharged: %s ; context %s" % (o.kind, o.detail, o.ctx), o.where)
     run.assume("GLOBAL [platform] a slice / vector that exists in memory occupies at most 2^56 bytes (largest user address space of any 64-bit target); "
                "bounds len() of existing collections only, never a requested allocation size")
+    for pth, msg in sorted(getattr(eng, "ptr_checks_skipped", ())):
+        run.note("compiler-inserted raw-pointer check not claimed here (unsafe code is confined by C13.P5): %s in %s" % (msg, pth))
     total = len(obs)
     run.inst("C14.O", "obligations-discharged", True,
              "%d obligations from %d live contexts (%d contexts analysed): %d discharged, %d reviewed assumptions, %d input-independent, %d violations" % (
